@@ -138,7 +138,7 @@ def gen_case(rng, n_ops, faults=False, crashes=False):
 # ---------------------------------------------------------------------------------------------- stream definition
 
 def gen_world(rng, tier):
-    ncases = 500 if tier == "thorough" else 60
+    ncases = 500 if tier == "thorough" else 200
     for i in range(ncases):
         faults = i % 3 == 1
         crashes = i % 3 == 2
